@@ -98,6 +98,7 @@ def violation_class(feat):
         str(x)
         for x in (
             feat["invariant"] if feat["invariant"] not in ("I3", "I4") else "I3/I4",
+            feat["spec_type"],
             feat["kind"],
             feat["observed_exc"],
             feat["expected_exc"],
